@@ -325,6 +325,10 @@ func jsonrtOne(c *Ctx, t *rtTarget, m protoreflect.Message, cfg jsonrtCfg) {
 		rtAddUnknown(c, m)
 		c.Stat("with_unknown")
 	}
+	if n := rtCountEscaped(m, false); n > 0 {
+		c.Stat("msgs_with_any_embedded_escaped_strings")
+		c.StatN("any_embedded_escaped_strings", n)
+	}
 	if reason != "" {
 		c.Stat("unrep_" + reason)
 	} else if lossy != "" {
@@ -385,10 +389,21 @@ func jsonrtOne(c *Ctx, t *rtTarget, m protoreflect.Message, cfg jsonrtCfg) {
 		if emitC {
 			c.Case("jsonrt", "enc", append(append(append([]string{id, ob}, val...), "T"), tree...), []string{"ok"})
 		}
+		// Unmarshal must not modify its input, and decoding the same bytes twice must give the same result
+		b0 := append([]byte(nil), b...)
 		m2 := t.new()
 		err = protojson.UnmarshalOptions{AllowPartial: true}.Unmarshal(b, m2.Interface())
+		if !bytes.Equal(b, b0) {
+			c.PropFail("C20", "Unmarshal modified its input: "+what+" opts="+ob, HexB(b0), HexB(b))
+			b = append(b[:0], b0...)
+		}
+		m3 := t.new()
+		err3 := protojson.UnmarshalOptions{AllowPartial: true}.Unmarshal(b, m3.Interface())
+		if (err == nil) != (err3 == nil) || (err == nil && !(proto.Equal(m2.Interface(), m3.Interface()) && rtSameBits(m2, m3))) {
+			c.PropFail("C20", "decoding the same JSON bytes twice gives different results: "+what+" opts="+ob, HexB(b0))
+		}
 		if err != nil {
-			c.PropFail("C20", "Unmarshal(Marshal(m)) fails: "+err.Error()+" "+what+" opts="+ob, HexB(b))
+			c.PropFail("C20", "Unmarshal(Marshal(m)) fails: "+err.Error()+" "+what+" opts="+ob, HexB(b0))
 			continue
 		}
 		if emitC && (bits == 0 || bits == 63 || c.Intn(4) == 0) {
@@ -553,7 +568,7 @@ func jsonrtKW(c *Ctx) *rtTarget {
 	}
 	fdp := &descriptorpb.FileDescriptorProto{
 		Name: proto.String("verif/kw.proto"), Package: proto.String("verif"), Syntax: proto.String("proto2"),
-		Dependency: []string{"google/protobuf/struct.proto", "google/protobuf/wrappers.proto", "google/protobuf/timestamp.proto", "google/protobuf/duration.proto", "google/protobuf/field_mask.proto"},
+		Dependency: []string{"google/protobuf/struct.proto", "google/protobuf/wrappers.proto", "google/protobuf/timestamp.proto", "google/protobuf/duration.proto", "google/protobuf/field_mask.proto", "google/protobuf/any.proto"},
 		MessageType: []*descriptorpb.DescriptorProto{{Name: proto.String("KW"), Field: []*descriptorpb.FieldDescriptorProto{
 			f("opt_null", "optNull", 1, opt, descriptorpb.FieldDescriptorProto_TYPE_ENUM.Enum(), ".google.protobuf.NullValue"),
 			f("n", "n", 2, opt, descriptorpb.FieldDescriptorProto_TYPE_INT32.Enum(), ""),
@@ -565,7 +580,14 @@ func jsonrtKW(c *Ctx) *rtTarget {
 			f("ts", "ts", 8, opt, msg, ".google.protobuf.Timestamp"),
 			f("dur", "dur", 9, opt, msg, ".google.protobuf.Duration"),
 			f("fm", "fm", 10, opt, msg, ".google.protobuf.FieldMask"),
-		}}},
+			f("anys", "anys", 11, rep, msg, ".google.protobuf.Any"),
+			f("any_map", "anyMap", 12, rep, msg, ".verif.KW.AnyMapEntry"),
+			f("names", "names", 13, rep, descriptorpb.FieldDescriptorProto_TYPE_STRING.Enum(), ""),
+		}, NestedType: []*descriptorpb.DescriptorProto{{Name: proto.String("AnyMapEntry"),
+			Field: []*descriptorpb.FieldDescriptorProto{
+				f("key", "key", 1, opt, descriptorpb.FieldDescriptorProto_TYPE_STRING.Enum(), ""),
+				f("value", "value", 2, opt, msg, ".google.protobuf.Any"),
+			}, Options: &descriptorpb.MessageOptions{MapEntry: proto.Bool(true)}}}}},
 	}
 	fd, err := protodesc.NewFile(fdp, protoregistry.GlobalFiles)
 	if err != nil {
@@ -574,6 +596,112 @@ func jsonrtKW(c *Ctx) *rtTarget {
 	}
 	md := fd.Messages().Get(0)
 	return &rtTarget{name: "rnd", md: md, new: func() protoreflect.Message { return dynamicpb.NewMessage(md) }}
+}
+
+// jsonrtAnyCorpus: Any values whose JSON contains strings and keys written with an escape -- the
+// decoder reads every Any object twice over the same bytes (findTypeURL on a clone, then the real
+// read), so the two passes must not interfere: Any of ordinary messages, of well-known types, of Any,
+// and Any values inside lists and maps.
+func jsonrtAnyCorpus(c *Ctx, all []*rtTarget, kw *rtTarget, cfg jsonrtCfg) {
+	anyT := jsonrtFind(all, "google.protobuf.Any", "gen")
+	if anyT == nil {
+		c.PropFail("C20", "corpus type not linked: google.protobuf.Any")
+		return
+	}
+	mkAny := func(flavour *rtTarget, em protoreflect.Message) protoreflect.Message {
+		b, err := proto.MarshalOptions{AllowPartial: true, Deterministic: true}.Marshal(em.Interface())
+		if err != nil {
+			return nil
+		}
+		a := flavour.new()
+		a.Set(rtField(a, 1), protoreflect.ValueOfString("type.googleapis.com/"+string(em.Descriptor().FullName())))
+		if len(b) > 0 {
+			a.Set(rtField(a, 2), protoreflect.ValueOfBytes(b))
+		}
+		return a
+	}
+	strs := []string{"a\"b", "back\\slash", "line\nfeed", "tab\there", "\x00\x1f", "é\"日本\\", "<&>\u2028\"", "\\u0041", "\"", "plain"}
+	var embedded []protoreflect.Message
+	for _, name := range []string{"pb2.Scalars", "pb3.Scalars"} {
+		if t := jsonrtFind(all, name, "gen"); t != nil {
+			for _, s := range strs {
+				m := t.new()
+				fn := protoreflect.Name("opt_string")
+				if name == "pb3.Scalars" {
+					fn = "s_string"
+				}
+				if fd := t.md.Fields().ByName(fn); fd != nil {
+					m.Set(fd, protoreflect.ValueOfString(s))
+					embedded = append(embedded, m)
+				}
+			}
+		}
+	}
+	if t := jsonrtFind(all, "google.protobuf.StringValue", "gen"); t != nil {
+		for _, s := range strs[:4] {
+			m := t.new()
+			m.Set(rtField(m, 1), protoreflect.ValueOfString(s))
+			embedded = append(embedded, m)
+		}
+	}
+	if t := jsonrtFind(all, "google.protobuf.Struct", "gen"); t != nil {
+		for i, s := range strs[:6] {
+			m := t.new()
+			mp := m.Mutable(rtField(m, 1)).Map()
+			v := mp.NewValue()
+			v.Message().Set(rtField(v.Message(), 3), protoreflect.ValueOfString(strs[(i+3)%len(strs)]))
+			mp.Set(protoreflect.ValueOfString(s).MapKey(), v)
+			embedded = append(embedded, m)
+		}
+	}
+	if t := jsonrtFind(all, "pb3.Maps", "gen"); t != nil {
+		if fd := t.md.Fields().ByName("str_to_nested"); fd != nil {
+			m := t.new()
+			mp := m.Mutable(fd).Map()
+			mp.Set(protoreflect.ValueOfString("k\"ey\n").MapKey(), mp.NewValue())
+			embedded = append(embedded, m)
+		}
+	}
+	var anys []protoreflect.Message
+	for i, em := range embedded {
+		a := mkAny(anyT, em)
+		if a == nil {
+			continue
+		}
+		anys = append(anys, a)
+		jsonrtOne(c, anyT, a, cfg)
+		if i%4 == 0 { // Any of Any
+			if aa := mkAny(anyT, a); aa != nil {
+				jsonrtOne(c, anyT, aa, cfg)
+			}
+		}
+	}
+	if kw != nil && len(anys) > 0 {
+		// Any values in a list and in a map (with an escaped key)
+		m := kw.new()
+		fds := kw.md.Fields()
+		l := m.Mutable(fds.ByName("anys")).List()
+		mp := m.Mutable(fds.ByName("any_map")).Map()
+		for i, a := range anys {
+			if i%3 == 0 {
+				e := l.NewElement()
+				e.Message().Set(rtField(e.Message(), 1), a.Get(rtField(a, 1)))
+				if a.Has(rtField(a, 2)) {
+					e.Message().Set(rtField(e.Message(), 2), a.Get(rtField(a, 2)))
+				}
+				l.Append(e)
+			}
+			if i%5 == 0 {
+				e := mp.NewValue()
+				e.Message().Set(rtField(e.Message(), 1), a.Get(rtField(a, 1)))
+				if a.Has(rtField(a, 2)) {
+					e.Message().Set(rtField(e.Message(), 2), a.Get(rtField(a, 2)))
+				}
+				mp.Set(protoreflect.ValueOfString(strs[i%len(strs)]).MapKey(), e)
+			}
+		}
+		jsonrtOne(c, kw, m, cfg)
+	}
 }
 
 func famJsonrt(c *Ctx) {
@@ -596,6 +724,7 @@ func famJsonrt(c *Ctx) {
 		}
 		heavy = append(heavy, kw, kw)
 	}
+	jsonrtAnyCorpus(c, all, kw, cfg)
 	pool := rtAnyPool()
 	run := func(t *rtTarget) {
 		var m protoreflect.Message
